@@ -100,6 +100,30 @@ PROPERTIES = {
               'Not covered: the diff-side filter insert_dummy_and_contract_inner_names.',
         note='Bounded stand-in, NOT a proof: the operation works on IndexMap<JavaString,..> trees through nested closures and text I/O (outside Verus; CBMC gave no verdict in 10 min on one IndexMap insertion chain), so the real code is run natively on every mapping set of a stated small universe and compared with a model-level oracle written from the property statement (kx/enum/maps.rs: own model, own Tiny v2 renderer/parser). Inputs beyond the bound are not covered.',
         out=['quill/src/action/insert_dummy.rs (diff-side filter)']),
+    'C05': dict(
+        level='other', verus=[], kani=[], enum=['vgraph'],
+        technique=ENUM_TECH,
+        explanation='Bounded stand-in for the version graph (src/version_graph.rs): every case writes a fresh mappings directory (one root .tiny, parent#child .tinydiff files), runs the real VersionGraph::resolve / versions / children / get / apply_diffs and compares with the model-level answer (root + the diffs along the path, inner names extended); chains, trees, diamonds, split a~b names, all file-creation orders of the bound, malformed directories (kx/enum/vgraph_group.py lists the universes).',
+        claim='Bounded (not proved): the mappings reported for a version are the root with exactly the diffs along its path applied in order and inner names extended, independent of directory listing order; split versions are reachable under either half; malformed directories are refused. '
+              'Not covered: directories whose diffs into one version disagree (any one path is accepted there), inputs beyond the bound.',
+        note='Bounded stand-in, NOT a proof: the function is file-system scan + petgraph A* inside the binary crate, outside both verifiers; the real code is run natively on every directory of a stated small universe and compared with a model-level oracle written from the property statement (kx/enum/vgraph.rs).',
+        out=['directories with disagreeing diffs into one version (ambiguous paths)', 'inputs beyond the bound']),
+    'C12': dict(
+        level='other', verus=[], kani=[], enum=['enigma'],
+        technique=ENUM_TECH,
+        explanation='Bounded stand-in for the Enigma reader / writer (quill::enigma_file, quill::enigma_dir): whole two-namespace mapping sets of a stated universe written as one stream and as a directory tree and read back, an independent rendering read by the real reader, comments over a small alphabet, garbage lines (kx/enum/enigma_group.py lists the universes).',
+        claim='Bounded (not proved): write-then-read yields the same classes under the same keys with the same names, members, parameters and comments; the written text is sorted and nested like the source names; the directory form puts every class into exactly one file; no panic on garbage lines. '
+              'Known findings (see known_findings.jsonl): inner classes whose outer class is absent lose their key; a tab inside a comment becomes a space; two top-level classes that share a file name.',
+        note='Bounded stand-in, NOT a proof: text I/O through BufRead / fmt and directory I/O (walkdir) are outside both verifiers; the real code is run natively on every mapping set of a stated small universe and compared with a model-level oracle written from the property statement (kx/enum/enigma.rs).',
+        out=['inputs beyond the bound']),
+    'C14': dict(
+        level='other', verus=[], kani=[], enum=['nest'],
+        technique=ENUM_TECH,
+        explanation='Bounded stand-in for dukenest (nest_jar, apply_nests_to_mappings, undo_nests_to_mappings, remap_nests): all nests tables of a stated universe over generated jars and mapping sets, with the renaming applied at model level as the oracle (kx/enum/nest_group.py lists the universes).',
+        claim='Bounded (not proved): nesting renames exactly the listed classes that are present and satisfy the rule of their kind, transitively, rewrites references, records InnerClasses / EnclosingMethod entries and creates missing enclosing classes; applying / undoing a table on mappings is consistent with the jar; translating a table keeps every nest. '
+              'Known findings (see known_findings.jsonl): the result depends on the order of the rows when a listed class is missing but named as enclosing class; class names inside Signature attributes are not rewritten (the C07 finding seen through nest_jar); an anonymous index above i32::MAX is not applied; a custom inner name that is a suffix of the class name is taken for a derived one.',
+        note='Bounded stand-in, NOT a proof: string surgery on JavaString + IndexMap recursion + jar I/O are outside both verifiers; the real code is run natively on a stated small universe and compared with a model-level oracle written from the property statement (kx/enum/nest.rs).',
+        out=['cyclic nests tables (stack overflow; outside the text of C14)', 'inputs beyond the bound']),
     'C06': dict(
         level='other', verus=['remapapi'], kani=[], enum=['mapdesc', 'maps'],
         technique=ENUM_TECH,
@@ -119,7 +143,7 @@ PROPERTIES = {
              'Bounded stand-in for the map level: native enumeration against a model-level oracle (kx/enum).',
         out=['quill/src/action/extend_inner_class_names.rs map / extend / contract over Mappings (IndexMap) -- bounded only', 'get_inner_class_name / get_inner_class_parent (Option::map with closures)']),
     'C13': dict(
-        level='other', verus=[], kani=[], enum=['mpo'],
+        level='other', verus=[], kani=[], enum=['mpo', 'jarmerge'],
         technique=ENUM_TECH,
         explanation='Bounded stand-in for merge_preserve_order: all 206 x 206 pairs of duplicate-free lists of length <= 4 over 5 elements.',
         claim='Bounded (not proved): the merged member list contains every element of either side exactly once and nothing else, keeps the client order, and keeps the server order whenever the two orders are compatible. '
@@ -139,7 +163,7 @@ PROPERTIES = {
              'Bounded stand-in for the name predicates and as a second opinion on the parsers: native enumeration against an independent oracle (kx/enum).',
         out=['duke/src/tree/mod.rs names::is_valid_* (assumed / bounded only)', 'duke/src/tree/class.rs, field.rs, method.rs check_valid wrappers', 'unicode names beyond the bounded alphabet', 'signatures (check_valid accepts everything)']),
     'C16': dict(
-        level='proof', verus=['rlabels', 'cwrite', 'wjump', 'wpool', 'wencode', 'wattrs', 'wtypes', 'wannot', 'rskip', 'rbranch', 'rscan', 'rpool', 'rdecode', 'rframes', 'rattrs', 'rtables', 'raccept', 'rtree', 'rarms', 'rtypes', 'rpoolres', 'rannot', 'aaccept', 'abuild', 'adiff', 'scope', 'c20len', 'desc', 'inner'], kani=[], enum=['desc', 'mapdesc', 'cls'],
+        level='proof', verus=['rlabels', 'cwrite', 'wjump', 'wpool', 'wencode', 'wattrs', 'wtypes', 'wannot', 'rskip', 'rbranch', 'rscan', 'rpool', 'rdecode', 'rframes', 'rattrs', 'rtables', 'raccept', 'rtree', 'rarms', 'rtypes', 'rpoolres', 'rannot', 'aaccept', 'abuild', 'adiff', 'scope', 'c20len', 'desc', 'inner'], kani=[], enum=['desc', 'mapdesc', 'cls', 'enigma'],
         technique=VERUS_TECH + ': implicit safety obligations (overflow, index, unwrap, unreachable, termination)',
         claim='Unbounded proof of panic-freedom and termination for every function extracted for the other properties (Verus generates no-overflow, in-bounds, no-failing-unwrap, unreachable!() unreachable, decreases obligations for each). '
               'This includes the descriptor parsers (read_field_type, the three parse functions, get_arguments_size) on arbitrary text. Partial: the line-oriented text parsers built on BufRead are outside the verifier and not covered.',
@@ -160,8 +184,5 @@ PROPERTIES = {
 }
 
 NOT_APPLICABLE = {
-    'C05': 'file-system scan + petgraph A* inside the binary crate; nothing on the path is free of I/O or external data structures that a contract could be attached to',
-    'C12': 'as C03, plus directory tree I/O (walkdir)',
-    'C14': 'string surgery on JavaString + IndexMap recursion + jar I/O; the claim relates two whole-program transformations',
-    # not yet built in this session (moved to claimed checks as they are built):
+    # every property is claimed now; the three properties listed here in earlier sessions (C05, C12, C14) are bounded stand-ins (E3, level other)
 }
